@@ -660,7 +660,7 @@ def tricore_aac_arithmetic(obj, const4, a):
     obj.type = type_data_processing
 
 @ispec("16<[ const8(8) {20} ]", mnemonic="SUB_A")
-def tricore_aac_arithmetic(obj, const8, a):
+def tricore_aac_arithmetic(obj, const8):
     dst = env.A[10]
     src2 = env.cst(const8,32)
     src1 = env.A[10]
